@@ -296,10 +296,6 @@ def enc_fields(fields, names, lower=False) -> bytes:
 
 
 # ------------------------------------------------------------------ RRSIG signing input
-def owner_label_count(labels) -> int:
-    return len(labels)
-
-
 def is_wild(labels) -> bool:
     return len(labels) > 0 and labels[0] == b"*"
 
